@@ -15,6 +15,20 @@ CHECKS = {
              "assumed within 1e-12 relative (checked on every sampled case, not proved).",
         technique="Lean 4 proof over translator-generated tables + differential correspondence",
         design="§6 C06"),
+    "C09": dict(
+        text="Lean theorems over an executable model of the native sampler (Sample, SampleOnTSample, SampleOnInterval, SamplingStep, "
+             "CheckTMax, Init's t=0 step, the Iterate skeleton of the six algorithms; abstract algorithm step, exact clock): shape and "
+             "order of the exported buffer, strictly increasing policy times, non-decreasing times with explicit sample() calls, t=0 record = "
+             "initial state, a step is recorded iff a requested time / a multiple of the interval lies in (previous step, this step] "
+             "(sorted requests), one record per step, every step / none, fixed-step clock n*dt with completion exactly at the first step "
+             "beyond t_max, default t_max. Tie: generated loop conditions, bodies, dispatch, Iterate statement lists, Init assignments, "
+             "export index formulas, policy tables (theorems of the form Gen.item = literal) + correspondence `lifecycle` (real engine "
+             "driven step by step in a sandboxed child, model replays the calls on the observed clock) + contract oracle on the real "
+             "t/data.",
+        note="Lean kernel + {propext, Classical.choice, Quot.sound}; translator; correspondence harness; float clock: exact for dyadic "
+             "dt, else 1e-9 relative and +-1 step as the statement allows; the algorithm step itself is abstract here (C01/C07 cover it).",
+        technique="Lean 4 proof over an executable model tied to translator-generated source text + differential correspondence",
+        design="§6 C09"),
 }
 
 ALL = ["C%02d" % i for i in range(1, 21)]
